@@ -1,9 +1,9 @@
 (* GENERATED on every run by translate/helpers_to_coq.py from edgegraph/traversal/helpers.py — do not edit.
-   source sha1: UNTRANSLATED: neighbors: unexpected statements around the loop: ['Assign', 'If', 'Assign', 'If', 'Assign', 'For', 'Expr', 'Return'] *)
+   source sha1: f03e14a286c2bdf506e4afc45511be641727c4aa *)
 From EG Require Import Base State Nbrs NbrsDecide.
 
 Definition gen_nb_decide (d : dirn) (u : unk) (k_und k_dir e1 e2 fk : bool) : dec :=
-  nb_decide d u k_und k_dir e1 e2 fk.
+  (if (dirn_eqb d Fwd) then (if k_und then (if fk then DAdd else DSkip) else (if (k_dir && e1) then (if fk then DAdd else DSkip) else (if (k_dir && e2) then DSkip else (if (unk_eqb u UNon) then DSkip else (if (unk_eqb u UNb) then (if fk then DAdd else DSkip) else (DRaise NotImplementedError)))))) else (if (dirn_eqb d Bwd) then (if k_und then (if fk then DAdd else DSkip) else (if (k_dir && e2) then (if fk then DAdd else DSkip) else (if (k_dir && e1) then DSkip else (if (unk_eqb u UNon) then DSkip else (if (unk_eqb u UNb) then (if fk then DAdd else DSkip) else (DRaise NotImplementedError)))))) else (if (dirn_eqb d AnyDir) then (if fk then DAdd else DSkip) else (DRaise ValueError)))).
 
 Definition gen_fl_decide (ds : bool) (u : unk) (k_und k_dir e1 joins fk : bool) : dec :=
-  fl_decide ds u k_und k_dir e1 joins fk.
+  (if (negb joins) then DSkip else (if ds then (if k_und then (if fk then DAdd else DSkip) else (if k_dir then (if (negb e1) then DSkip else (if fk then DAdd else DSkip)) else (if (unk_eqb u UNon) then DSkip else (if (unk_eqb u UNb) then (if fk then DAdd else DSkip) else (DRaise NotImplementedError))))) else (if fk then DAdd else DSkip))).
